@@ -15,7 +15,7 @@ from circuits.web.headers import Headers
 METHOD_RE = re.compile('^[A-Z0-9$\\-_.]{1,20}$')
 VERSION_RE = re.compile(r'^HTTP/(\d+)\.(\d+)$')
 STATUS_RE = re.compile(r'^(\d{3})(?:\s+([\s\w]*))$')
-HEADER_RE = re.compile('[\\x00-\\x1F\\x7F()<>@,;:/\\[\\]={} \\t\\\\"]')
+HEADER_RE = re.compile("[^!#$%&'*+\\-.^_`|~0-9A-Za-z]")  # anything but the characters of a token
 CTL_RE = re.compile('[\\x00\\r\\n]')
 NOT_LATIN1_RE = re.compile('[^\\x00-\\xff]')
 CHUNK_SIZE_RE = re.compile(b'^[0-9A-Fa-f]+$')
@@ -333,7 +333,7 @@ class HttpParser:
                 raise InvalidHeader('invalid line %s' % curr.strip())
             name, value = curr.split(':', 1)
             name = name.rstrip(' \t').upper()
-            if HEADER_RE.search(name):
+            if not name or HEADER_RE.search(name):
                 raise InvalidHeader('invalid header name %s' % name)
 
             if value.endswith('\r\n'):
